@@ -87,6 +87,34 @@ def crash_sweep(world, acc, prog, label):
             v['property'] = PROP
             v['history'] = world.spec()
             acc.violations.append(v)
+    # ... and while the cache file is being written (open / write / close failing)
+    if r0.real[0] == 'ok':
+        world.restore(h)
+        rc = world.build(prog, fault={'k': None})
+        log = rc.fault['log']
+        for k in range(1, len(log) + 1):
+            if log[k - 1] != 'open':
+                continue
+            for f in ({'k': k, 'errno': 5}, {'k': k, 'errno': 28, 'file': ['write', 0]},
+                      {'k': k, 'errno': 28, 'file': ['write', 15]}, {'k': k, 'errno': 5, 'file': ['close']}):
+                world.restore(h)
+                r = world.build(prog, fault=f)
+                acc.count('cache_write_fault_builds')
+                bad = acc.take(world, r)
+                if r.real[0] != 'exc':
+                    v = viol('rollback.cache_write_fault_swallowed', {'fault': str(f.get('file', 'open'))})
+                    v['property'] = PROP
+                    v['history'] = world.spec()
+                    acc.violations.append(v)
+                    continue
+                if bad or same_files(r.before, r.after):
+                    continue
+                rb = world.build(prog, check_ref=False)
+                if outcome_sig(rb) != base_sig:
+                    v = viol('rollback.next_build_differs', {'after': 'cache write fault'})
+                    v['property'] = PROP
+                    v['history'] = world.spec()
+                    acc.violations.append(v)
     world.restore(h)
     world.drop(h)
     return r0
@@ -183,13 +211,15 @@ def coverage(res, tier):
         'programs': res.counters.get('programs', 0),
         'histories': res.counters.get('histories', 0),
         'crash_builds': res.counters.get('crash_builds', 0),
+        'cache_write_fault_builds': res.counters.get('cache_write_fault_builds', 0),
         'bisimulation_runs': res.counters.get('bisim_runs', 0),
         'distinct_outcomes': len(res.outcomes),
         'exhaustive': not res.capped,
         'bounds': [dict(family=s.get('family', 'skel'), size=s['size'], level=s['level'], cfg=s['cfg'], t0=s['t0'],
                         mutations=s['mut'], restriction=s.get('kw', {})) for s in spaces(tier)],
         'rule': 'for every (program, initial tree, mutation): crash at every program point of the first build and of '
-                'the rebuild after the mutation (pairs family: crashing build of Q on the state left by P). Oracles '
+                'the rebuild after the mutation (pairs family: crashing build of Q on the state left by P), and the '
+                'cache write of every successful build failing at open / first write / later write / close. Oracles '
                 'are before/after monitors on the real tree (no model involved) plus a depth-1 bisimulation of the '
                 'next build against the saved pre-state',
     }
